@@ -1,4 +1,5 @@
 import ShellOp.Proofs.Conversion
+import ShellOp.Proofs.ConversionOverlap
 /-!
 # C15 — conversion: a valid rule chain is found iff one exists, applied step by step
 
@@ -1040,6 +1041,76 @@ theorem apply_served (ord : Order) (links : Rule → Bool) (script : Script) (ru
   | notFound => exact hnone [] (by simp [hf]) (by simp [hf])
   | outOfFuel => exact hnone [] (by simp [hf]) (by simp [hf])
 
+/-! ## several requests in flight (`Model/ConversionOverlap`) -/
+
+section Overlap
+open ShellOp.Conversion.Overlap
+
+/-- **Requests in flight do not disturb each other.** Any number of requests, each with the chain
+found for it, every interleaving `acts` of their steps ("task of the next step built" / "hook of the
+built task run"), every script of hook outcomes per request: when the loop of request `i` has ended,
+it has ended the way the sequential loop (`runPath`) ends on request `i` alone — the same hook runs
+with the same inputs, the same objects, the same result. (The code allocates the review envelope of a
+step per step: `Overlap.fresh`.) -/
+theorem overlap_isolated (links : Rule → Bool) (script : Nat → Script) (desired : Nat → Ver)
+    (path0 : Nat → Path) (objs0 : Nat → List Obj) (acts : List Act) (i : Nat) (e : PathEnd)
+    (h : ((exec links script desired fresh acts (init path0 objs0)).fl i).fin = some e) :
+    (e, ((exec links script desired fresh acts (init path0 objs0)).fl i).objs,
+        ((exec links script desired fresh acts (init path0 objs0)).fl i).inv)
+      = runPath links (script i) (desired i) (path0 i) (objs0 i) [] :=
+  (good_exec acts good_init).fin i e h
+
+/-- every hook run is handed the review of the request it is made for: in every reachable state the
+envelope a built task's binding context points to holds its own request -/
+theorem overlap_handed (links : Rule → Bool) (script : Nat → Script) (desired : Nat → Ver)
+    (path0 : Nat → Path) (objs0 : Nat → List Obj) (acts : List Act) (i : Nat) (r : Rule) (env : Nat)
+    (hf : ((exec links script desired fresh acts (init path0 objs0)).fl i).fin = none)
+    (hb : ((exec links script desired fresh acts (init path0 objs0)).fl i).built = some (r, env)) :
+    (exec links script desired fresh acts (init path0 objs0)).heap env = i :=
+  ((good_exec (links := links) (script := script) (desired := desired) acts good_init).busy i r env hf hb).2.2.1
+
+/-- **C15 application clause for every request in flight** (`applyCheck`, the predicate of the
+`oracle e2e` line, on the request's own observation): whatever the other requests do in between, the
+hooks of request `i` run in chain order, each receives the previous output OF REQUEST `i`, nothing
+runs after a failed run, `Success` only with `i`'s requested number of objects, all converted, the
+failing hook's own message relayed. `path0 i` is any chain of declared rules linked from the source
+version (what `chain_sound` gives for the chain found on the cache as it was then). -/
+theorem overlap_apply (links : Rule → Bool) (script : Nat → Script) (desired : Nat → Ver)
+    (path0 : Nat → Path) (objs0 : Nat → List Obj) (acts : List Act) (i : Nat) (e : PathEnd)
+    (rules : List Rule) (a : Ver) (hv : extractVersions (objs0 i) = [a])
+    (hd : ∀ r ∈ path0 i, r ∈ rules) (hl : Linked Matched a (path0 i))
+    (h : ((exec links script desired fresh acts (init path0 objs0)).fl i).fin = some e) :
+    applyCheck rules (desired i) (objs0 i) (script i)
+      ((exec links script desired fresh acts (init path0 objs0)).fl i).inv
+      (replyOf (objs0 i).length
+        (e, ((exec links script desired fresh acts (init path0 objs0)).fl i).objs,
+            ((exec links script desired fresh acts (init path0 objs0)).fl i).inv)) = none := by
+  have hiso := overlap_isolated links script desired path0 objs0 acts i e h
+  have hinv : ((exec links script desired fresh acts (init path0 objs0)).fl i).inv
+      = (runPath links (script i) (desired i) (path0 i) (objs0 i) []).2.2 := by rw [← hiso]
+  rw [hiso, hinv]
+  exact apply_path links (script i) rules (desired i) a (objs0 i) (path0 i) hv hd hl
+
+/-- … with the chain the search returned for request `i`: the searches of the requests are serialised
+by the lock of `ChainStorage` (`FindConversionChain` holds `cs.mu`), so request `i` finds the cache as
+some history of earlier queries left it; whatever that history and the map iteration order, and
+whatever the other requests do between `i`'s steps, the application clause holds of `i`'s run. -/
+theorem overlap_apply_chain (ord : Order) (links : Rule → Bool) (script : Nat → Script) (desired : Nat → Ver)
+    (path0 : Nat → Path) (objs0 : Nat → List Obj) (acts : List Act) (i : Nat) (e : PathEnd)
+    (rules history : List Rule) (a : Ver) (hv : extractVersions (objs0 i) = [a])
+    (hU : Coherent (a :: desired i :: versionsOf rules))
+    (hfound : (find ord (afterQueries ord (Chain.ofRules rules) history) ⟨a, desired i⟩).2 = .found (path0 i))
+    (h : ((exec links script desired fresh acts (init path0 objs0)).fl i).fin = some e) :
+    applyCheck rules (desired i) (objs0 i) (script i)
+      ((exec links script desired fresh acts (init path0 objs0)).fl i).inv
+      (replyOf (objs0 i).length
+        (e, ((exec links script desired fresh acts (init path0 objs0)).fl i).objs,
+            ((exec links script desired fresh acts (init path0 objs0)).fl i).inv)) = none :=
+  have hc := chain_sound ord rules history a (desired i) (path0 i) hU hfound
+  overlap_apply links script desired path0 objs0 acts i e rules a hv hc.declared hc.linked h
+
+end Overlap
+
 /-! ## non-vacuity and regression witnesses -/
 
 section Examples
@@ -1135,6 +1206,41 @@ theorem shared_decode_witness :
 example : applyCheck twoStep (V "g.io/v3") objsV1 okScript
     [⟨R "v1" "v2", objsV1⟩, ⟨R "g.io/v2" "v3", [⟨1, V "g.io/v2"⟩, ⟨2, V "g.io/v2"⟩]⟩]
     (.success [⟨1, V "g.io/v3"⟩, ⟨2, V "g.io/v3"⟩]) = none := by decide
+
+/-! ### requests in flight -/
+
+section OverlapExamples
+open ShellOp.Conversion.Overlap
+
+private def oneRule : List Rule := [R "v1" "v2"]
+/-- request 0 brings object 1, every other request object 101 -/
+private def objsOf (i : Nat) : List Obj := if i = 0 then [⟨1, V "g.io/v1"⟩] else [⟨101, V "g.io/v1"⟩]
+private def convScript : Nat → Script := fun _ _ r inp => .resp "" (inp.map fun o => ⟨o.id, V "g.io/" ++ r.dst⟩)
+/-- A's task built, B's task built, A's hook runs, B's hook runs -/
+private def abab : List Act := [.build 0, .build 1, .run 0, .run 1]
+
+/-- `overlap_isolated` / `overlap_apply` are not vacuous: with an envelope per step both requests end
+`done`, each with its own object … -/
+example :
+    let s := exec (fun _ => true) convScript (fun _ => V "g.io/v2") fresh abab (init (fun _ => oneRule) objsOf)
+    (s.fl 0).fin = some .done ∧ (s.fl 0).inv = [⟨R "v1" "v2", objsOf 0⟩] ∧ (s.fl 0).objs = [⟨1, V "g.io/v2"⟩] ∧
+    (s.fl 1).fin = some .done ∧ (s.fl 1).inv = [⟨R "v1" "v2", objsOf 1⟩] ∧ (s.fl 1).objs = [⟨101, V "g.io/v2"⟩] := by
+  decide
+
+/-- … while a controller that keeps one envelope per link and refills it hands A's hook the objects of
+B (B's `HandleEvent` came between A's `HandleEvent` and A's hook run): A is answered `Success` with
+B's object, and `applyCheck` on A's own observation rejects it -/
+theorem shared_envelope_witness :
+    let s := exec (fun _ => true) convScript (fun _ => V "g.io/v2") (perLink oneRule) abab (init (fun _ => oneRule) objsOf)
+    (s.fl 0).fin = some .done ∧ (s.fl 0).inv = [⟨R "v1" "v2", objsOf 1⟩] ∧ (s.fl 0).objs = [⟨101, V "g.io/v2"⟩] ∧
+    applyCheck oneRule (V "g.io/v2") (objsOf 0) (convScript 0) (s.fl 0).inv
+      (replyOf (objsOf 0).length (.done, (s.fl 0).objs, (s.fl 0).inv))
+      = some "a-step-did-not-receive-the-previous-output" ∧
+    handedCheck "uid-a" ["uid-b"] = some "a-hook-run-was-handed-the-review-of-another-request" ∧
+    handedCheck "uid-a" ["uid-a", "uid-a"] = none := by
+  decide
+
+end OverlapExamples
 
 /-! ### the four repaired defects: the unrepaired variants violate the property -/
 
